@@ -7,7 +7,7 @@ import ttgen
 def _dense(x):
     return ttgen.ref_full([c.detach().resolve_conj().numpy() for c in x.cores])
 
-def readouts(torch, torchtt, x, rows):
+def readouts(torch, torchtt, x, rows, extras=()):
     """what the public API says about x (a dict of numpy arrays / floats)"""
     out = {"full": x.full().detach().resolve_conj().numpy()}
     out["numpy"] = np.asarray(x.numpy())
@@ -26,9 +26,10 @@ def readouts(torch, torchtt, x, rows):
         out["round(1e-10) ranks"] = [int(v) for v in x.round(1e-10).R]
     out["clone"] = x.clone().full().detach().resolve_conj().numpy()
     out["neg"] = (-x).full().detach().resolve_conj().numpy()
+    for nm, f, _r in extras: out[nm] = f(x)
     return out
 
-def reference(x, rows):
+def reference(x, rows, extras=()):
     D = _dense(x)
     ref = {"full": D, "numpy": D, "sum": np.asarray(D.sum()), "norm2": float((np.abs(D) ** 2).sum()), "norm": float(np.sqrt((np.abs(D) ** 2).sum())),
            "round": D, "clone": D, "neg": -D}
@@ -38,6 +39,7 @@ def reference(x, rows):
     else:
         ref["mask"] = np.array([D[tuple(r)] for r in rows]); ref["dot"] = np.asarray((D * np.conj(D)).sum())
         ref["_tens"] = D; ref["_unfold_rows"] = [int(n) for n in x.N]
+    for nm, _f, r in extras: ref[nm] = r(D, x)
     return ref
 
 def compare(got, ref, tol):
@@ -62,17 +64,17 @@ def compare(got, ref, tol):
 
 MUTATIONS = ("set_core same shape", "set_core new mode size", "in-place edit of a core tensor", "in-place edit of a core tensor through a view")
 
-def probe(V, rng, torch, torchtt, x, label, desc):
+def probe(V, rng, torch, torchtt, x, label, desc, extras=(), mutations=None):
     """x: a freshly built object that nothing else refers to. Reports through V.fail; returns the number of read-outs compared"""
     d = len(x.N); dtype = x.cores[0].dtype
     tol = 1e-4 if dtype in (torch.float32, torch.complex64) else 1e-10
     rows = [[rng.randrange(int(n)) for n in x.N] for _ in range(3)]
     n = 0
     try:
-        got0 = readouts(torch, torchtt, x, rows)
-        bad0 = compare(got0, reference(x, rows), tol)
+        got0 = readouts(torch, torchtt, x, rows, extras)
+        bad0 = compare(got0, reference(x, rows, extras), tol)
         if bad0: V.fail("%s: read-outs of a fresh object differ from the dense value of its cores: %s" % (label, ", ".join(bad0[:3])), dict(desc, readouts=bad0)); return 0
-        for mut in MUTATIONS:
+        for mut in (mutations or MUTATIONS):
             k = rng.randrange(d); c = x.cores[k]
             if mut == "set_core same shape":
                 x.set_core(k, torch.tensor(ttgen.rand_core(rng, tuple(c.shape), dtype.is_complex), dtype=dtype))
@@ -84,8 +86,8 @@ def probe(V, rng, torch, torchtt, x, label, desc):
             else:
                 with torch.no_grad(): x.cores[k][..., 0].add_(1.0)
             rows = [[rng.randrange(int(n_)) for n_ in x.N] for _ in range(3)]
-            got = readouts(torch, torchtt, x, rows)
-            bad = compare(got, reference(x, rows), tol)
+            got = readouts(torch, torchtt, x, rows, extras)
+            bad = compare(got, reference(x, rows, extras), tol)
             n += len(got)
             if bad:
                 V.fail("%s: after %s the object is read as it WAS, not as it is: %s" % (label, mut, ", ".join(bad[:3])), dict(desc, mutation=mut, core=k, stale_readouts=bad))
@@ -94,7 +96,7 @@ def probe(V, rng, torch, torchtt, x, label, desc):
         V.fail("%s: read - mutate - read probe raises %s" % (label, type(ex).__name__), dict(desc, exc=str(ex)[:200]))
     return n
 
-def run_block(V, rng, torch, torchtt, label, kinds, n):
+def run_block(V, rng, torch, torchtt, label, kinds, n, extras=(), mutations=None, N=None):
     """n objects of the given kinds through the probe; returns the number of read-outs compared"""
     import history
     total = 0
@@ -102,9 +104,10 @@ def run_block(V, rng, torch, torchtt, label, kinds, n):
         kind = kinds[j % len(kinds)]
         dtype = [torch.float64, torch.complex128, torch.float64, torch.float32][j % 4]
         d = rng.choice([2, 3, 3, 4])
+        if N: d = len(N)
         try:
-            if kind == "cores": x = history.rand_tt(rng, dtype, d=d)
-            elif kind == "ttm": x = history.rand_tt(rng, dtype, ttm=True, d=min(d, 3))
+            if kind == "cores": x = history.rand_tt(rng, dtype, d=d, N=list(N) if N else None)
+            elif kind == "ttm": x = history.rand_tt(rng, dtype, ttm=True, d=(len(N) if N else min(d, 3)), N=list(N) if N else None, M=list(N) if N else None)
             elif kind == "svd":                       # built from a dense array (TT-SVD): left-orthogonal cores by construction
                 N = [rng.choice([2, 3]) for _ in range(d)]
                 A = np.array([rng.gauss(0, 1) for _ in range(int(np.prod(N)))]).reshape(N)
@@ -119,5 +122,5 @@ def run_block(V, rng, torch, torchtt, label, kinds, n):
             desc = {"probe": "read-mutate-read", "kind": kind, "ttm": bool(x.is_ttm), "N": [int(v) for v in x.N], "R": [int(v) for v in x.R], "dtype": str(dtype)}
         except Exception as ex:
             V.fail("%s: building an object for the read - mutate - read probe raises %s" % (label, type(ex).__name__), {"kind": kind, "exc": str(ex)[:200]}); continue
-        total += probe(V, rng, torch, torchtt, x, label, desc)
+        total += probe(V, rng, torch, torchtt, x, label, desc, extras, mutations)
     return total
